@@ -21,8 +21,10 @@ for p in props:
         na.append({"property_id": pid, "reason": NA.get(pid, "check not built yet (work in progress); not claimed")})
         continue
     m = importlib.import_module(f"checks.{pid.lower()}")
-    eng = getattr(m, "ENGINE", "direct")
-    engines.setdefault(eng, []).append(pid)
+    eng_all = getattr(m, "ENGINE", "direct").split("+")
+    for e_ in eng_all:
+        engines.setdefault(e_, []).append(pid)
+    eng = eng_all[0]
     checks.append(
         {
             "property_id": pid,
@@ -43,7 +45,7 @@ for p in props:
 ENG = {
     "direct": ("vf/core.py + checks/", "differential / model-based monitors calling the real functions and addon objects in-process"),
     "sansio": ("vf/sansio.py", "engine A: real proxy layers driven sans-io under a schedule explorer; monitors on commands, hooks and wire bytes"),
-    "vloop": ("vf/vloop.py", "engine B: real asyncio ConnectionHandler/ClientPlayback on a virtual-time event loop with in-memory sockets and fault plans"),
+    "vloop": ("vf/vloop.py", "engine B: real asyncio ConnectionHandler/ClientPlayback on a virtual-time event loop with in-memory sockets and fault plans (vf/connharness.py probe layer, vf/httphandler.py real HTTP stack, vf/tcphandler.py real TCP layer)"),
     "web": ("vf/webapp.py", "engine E: real tornado mitmweb Application in-process"),
 }
 hooks_commits = []
